@@ -1,4 +1,5 @@
 \* liveness: every subscription goroutine is eventually told after ServeHTTP returned (weak fairness); no VIEW; 1 subscription
+\* measured: 48 045 distinct / 112 909 generated states, depth 21
 CONSTANTS
   FrameAlphabet <- FramesLive
   MaxFrames = 2
